@@ -3,6 +3,7 @@ package props
 import (
 	"astverif/demuxrules"
 	"astverif/extrarules"
+	"astverif/ownership"
 )
 
 func init() { register("C19", "other", c19) }
@@ -23,5 +24,11 @@ func c19(c *Ctx) {
 	demuxrules.New(c.P, r).C19()
 	extrarules.SkipperAlwaysInstalled(c.P, r)
 	extrarules.SkipperSeesEveryPacket(c.P, r)
+	// the packet buffer (which holds the skipper) is built lazily by NextPacket, after every option has been applied: built
+	// inside an option it would capture the skipper configured so far, i.e. depend on the order of the options
+	extrarules.WhoMayCall(c.P, r, "S5", "newPacketBuffer/called-from", "newPacketBuffer", []string{"(*Demuxer).NextPacket"}, 1,
+		"a packet buffer built before all options are applied may miss the skipper")
+	// a unit handed to the PacketsParser stays what it was: the accumulator never keeps the array it handed out (rule (c) of C16)
+	ownership.AccumulatorAlias(c.P, r)
 	r.Floor("C19", "obligations", len(r.Obls), 15)
 }
